@@ -140,6 +140,11 @@ type HandshakeConfig struct {
 
 	nameToCertificate map[string]*tls.Certificate
 	mu                sync.Mutex
+
+	// VerifyServerName is the name the server certificate is verified against. It differs from
+	// ServerName (what goes into the server_name extension) for an IP address literal, which
+	// must not be sent as SNI but still has to be covered by the certificate.
+	VerifyServerName string
 }
 
 func (c *HandshakeConfig) WriteKeyLog(label string, clientRandom, secret []byte) {
@@ -152,6 +157,15 @@ func (c *HandshakeConfig) WriteKeyLog(label string, clientRandom, secret []byte)
 	if err != nil {
 		c.Log.Debugf("failed to write key log file: %s", err)
 	}
+}
+
+// ServerNameToVerify returns the name a server certificate has to be valid for.
+func (c *HandshakeConfig) ServerNameToVerify() string {
+	if c.VerifyServerName != "" {
+		return c.VerifyServerName
+	}
+
+	return c.ServerName
 }
 
 func (c *HandshakeConfig) setNameToCertificateLocked() {
